@@ -21,9 +21,14 @@ RULE = (
     "reset_index=False) on the text; values: a 2-node tree whose x,y,z,r take every combination (thorough: full 4-fold "
     "product; quick: every triple of columns) of a 17-value alphabet with 4th-decimal boundaries, ties, huge and tiny "
     "magnitudes, and every pair of 8 node types; comments: every comment list of length <= 2 over a 9-string alphabet x "
-    "source in {True, False, custom} x comments flag x tree.source x 3 trees x 3 source kinds; history: BFS over "
+    "source in {True, False, 'custom', ''} x comments flag x tree.source x 3 trees x 3 source kinds; history: BFS over "
     "write(options)+read(source kind) transitions from read-back states, exact canonical states; big: long chains, wide "
-    "stars, the example reconstructions. Non-trivial = every case (a single node is still a full write+parse); distinct = "
+    "stars, the example reconstructions; sizes: chains of EVERY length 1..300 (thorough 1..1200) and combs; edits: write+read, "
+    "then every single in-place edit (attribute via node handle / column array, column replaced, every admissible re-parenting "
+    "x 3 ways, comment list edits, edit of a copy) on every LT(n<=4; thorough 5), then write+read judged against the edited "
+    "content; calls: every ordered pair (thorough: triple) of round trips of 6 different trees x 3 source kinds, each result "
+    "re-judged after the later calls; every tree returned by the library is also re-inspected after the next two cases "
+    "(retained results). Non-trivial = every case (a single node is still a full write+parse); distinct = "
     "distinct case tuple."
 )
 ASSUMPTIONS = [
@@ -251,6 +256,12 @@ def check_values(case, R):
         return
     got = observe_tree(t2)
     judge_tree(R, "values", orig, got, text)
+    # the float64 table shows what the text carries before float32 storage can mask it
+    from swcgeom.core import swc_utils as su
+
+    ok, res = R.impl("read_swc", su.read_swc, io.StringIO(text))
+    if ok:
+        judge_tree(R, "values:read_swc", orig, observe_df(res[0]), text)
     if any(swcio.is_tie4(v) for v in child + root):
         R.note("cases-with-exact-4th-decimal-tie")
     R.outcome(got["x"], got["y"], got["z"], got["r"])
@@ -415,6 +426,171 @@ def check_big(case, R):
         shutil.rmtree(tmp, ignore_errors=True)
 
 
+# ------------------------------------------------------------------ size sweep (lesson 3)
+
+
+def check_size(case, R):
+    """Every size in a range that crosses buffer / chunk thresholds (a row is ~45 bytes: 8 KiB at ~180 rows)."""
+    shape, n = case[0], int(case[1])
+    p = big_parent(shape, n)
+    R.state(shape, n)
+    t = mk(p, tagged(n), comments=["s"])
+    orig = orig_of(t)
+    tmp = tempfile.mkdtemp(prefix="c01-")
+    try:
+        for k in ("text", "bytes", "path-lib"):
+            text, t2 = write_and_read(R, t, k, tmp, source=False)
+            if t2 is None:
+                continue
+            judge_tree(R, f"size:{k}", orig, observe_tree(t2), text)
+            judge_comments(R, f"size:{k}", ["s"], list(t2.comments), False, text)
+        R.outcome(n)
+    finally:
+        shutil.rmtree(tmp, ignore_errors=True)
+
+
+# ------------------------------------------------------------------ write -> edit in place -> write again (lesson 2)
+
+NEWV = {"x": 77.77777, "y": -0.00005, "z": 2000000.125, "r": 3.33333}
+
+
+def edits_for(p, comments):
+    n = len(p)
+    out = []
+    for i in range(n):
+        out.append(["attr-handle", i, "x"])
+        out.append(["attr-column", i, "r"])
+        out.append(["type-handle", i])
+    out.append(["column-replaced", "y"])
+    out.append(["copy-then-attr", n - 1, "z"])
+    for i, j in build.reparent_edits(p):
+        for how in build.EDIT_HOWS:
+            out.append(["reparent", i, j, how])
+    out.append(["comments-append"])
+    out.append(["comments-assign"])
+    if comments:
+        out.append(["comments-setitem"])
+        out.append(["comments-clear"])
+    return out
+
+
+def check_edit(case, R):
+    p, comments, edit = list(case[0]), list(case[1]), list(case[2])
+    n = len(p)
+    R.state(p, comments, edit)
+    model = {"p": list(p), **{k: list(v) for k, v in tagged(n).items()}}
+    mcomments = list(comments)
+    t = mk(p, model, comments=comments)
+    tmp = tempfile.mkdtemp(prefix="c01-")
+
+    def roundtrip(obj, mdl, mcom, tag):
+        for k in ("text", "path-lib"):
+            text, t2 = write_and_read(R, obj, k, tmp, source=False)
+            if t2 is None:
+                continue
+            orig = {"p": mdl["p"], "type": mdl["type"], **{c: [swcio.f32(v) for v in mdl[c]] for c in COLS}}
+            judge_tree(R, f"edit:{tag}:{k}", orig, observe_tree(t2), text)
+            judge_comments(R, f"edit:{tag}:{k}", mcom, list(t2.comments), False, text)
+
+    try:
+        roundtrip(t, model, mcomments, "warm")  # warm every cache a writer might keep
+        kind = edit[0]
+        other = None
+        target = t
+        new_model = {k: list(v) for k, v in model.items()}
+        new_comments = list(mcomments)
+        if kind == "attr-handle":
+            i, c = int(edit[1]), edit[2]
+            setattr(t.node(i), c, NEWV[c])
+            new_model[c][i] = NEWV[c]
+        elif kind == "attr-column":
+            i, c = int(edit[1]), edit[2]
+            t.get_ndata(c)[i] = NEWV[c]
+            new_model[c][i] = NEWV[c]
+        elif kind == "type-handle":
+            i = int(edit[1])
+            t.node(i).type = 9
+            new_model["type"][i] = 9
+        elif kind == "column-replaced":
+            c = edit[1]
+            t.ndata[c] = (t.ndata[c] + np.float32(1.00001)).astype(np.float32)
+            new_model[c] = [float(v) for v in t.ndata[c].tolist()]
+        elif kind == "copy-then-attr":
+            i, c = int(edit[1]), edit[2]
+            target = t.copy()
+            setattr(target.node(i), c, NEWV[c])
+            new_model[c][i] = NEWV[c]
+            other = (t, model, mcomments)
+        elif kind == "reparent":
+            i, j, how = int(edit[1]), int(edit[2]), edit[3]
+            target, q, oth, _ = build.apply_reparent(t, p, (i, j, how))
+            new_model["p"] = list(q)
+            if oth is not None:
+                other = (oth, model, mcomments)
+        elif kind == "comments-append":
+            t.comments.append("later")
+            new_comments.append("later")
+        elif kind == "comments-assign":
+            t.comments = ["fresh", "list"]
+            new_comments = ["fresh", "list"]
+        elif kind == "comments-setitem":
+            t.comments[0] = "changed"
+            new_comments[0] = "changed"
+        elif kind == "comments-clear":
+            t.comments.clear()
+            new_comments = []
+        else:
+            raise ValueError(kind)
+        roundtrip(target, new_model, new_comments, kind)
+        if other is not None:
+            roundtrip(other[0], other[1], other[2], kind + ":original-after-copy-edit")
+        R.outcome(kind, new_model["p"], tuple(new_comments))
+    finally:
+        shutil.rmtree(tmp, ignore_errors=True)
+
+
+# ------------------------------------------------------------------ call histories on different fresh inputs (lesson 1)
+
+CALL_POOL = (([-1], ["a"]), ([-1, 0], []), ([-1, 0], ["b", "c"]), ([-1, 0, 0], ["d"]), ([-1, 0, 1], ["   ", "e"]), ([-1, 0, 1, 1], []))
+CALL_KINDS = ("text", "bytes", "path-lib")
+
+
+def check_calls(case, R):
+    """A sequence of round trips of different trees; every read-back is judged when returned AND again after all later
+    calls; two reads of one text must be independent objects."""
+    seq = [(int(a), k) for a, k in case]
+    R.state(seq)
+    tmp = tempfile.mkdtemp(prefix="c01-")
+    live = []
+    try:
+        for pos, (ti, kind) in enumerate(seq):
+            p, comments = CALL_POOL[ti]
+            vals = tagged(len(p))
+            vals["x"] = [swcio.f32(v + 10.0 * ti) for v in vals["x"]]
+            t = mk(p, vals, comments=comments)
+            orig = orig_of(t)
+            text, t2 = write_and_read(R, t, kind, tmp, source=False)
+            if t2 is None:
+                continue
+            good = judge_tree(R, f"calls:{kind}", orig, observe_tree(t2), text)
+            good &= judge_comments(R, f"calls:{kind}", comments, list(t2.comments), False, text)
+            R.outcome(ti, kind, tuple(t2.comments), observe_tree(t2)["x"])
+            if good:
+                live.append((orig, comments, t2, text, kind, t))
+            if pos == 0:
+                _, t3 = write_and_read(R, t, kind, tmp, source=False)
+                if t3 is not None:
+                    why = build.independent(t2, t3)
+                    R.check(why == "", "reads-share-state", lambda: f"two reads of the same text: {why}", "calls:reads-share-state")
+        for orig, comments, t2, text, kind, t in live:
+            judge_tree(R, f"calls:{kind}:re-inspected-after-later-calls", orig, observe_tree(t2), text)
+            judge_comments(R, f"calls:{kind}:re-inspected-after-later-calls", comments, list(t2.comments), False, text)
+            R.check(orig_of(t) == orig and list(t.comments) == list(comments), "input-modified", "a written tree changed after later calls",
+                    "calls:input-modified")
+    finally:
+        shutil.rmtree(tmp, ignore_errors=True)
+
+
 # ------------------------------------------------------------------ spaces
 
 
@@ -457,7 +633,7 @@ def spaces(tier, seed):
     def gen_comments():
         for cl in comment_lists(2):
             for ti in range(len(COMMENT_TREES)):
-                for source_opt in (True, False, "custom"):
+                for source_opt in (True, False, "custom", ""):
                     for flag in (1, 0):
                         for tsource in ("", "orig.swc"):
                             for kind in COMMENT_KINDS:
@@ -486,6 +662,52 @@ def spaces(tier, seed):
             for f in files:
                 yield ["file", f]
 
+    size_hi = 300 if quick else 1200
+
+    def gen_sizes():
+        for n in range(1, size_hi + 1):
+            yield ["chain", n]
+        for n in range(2, (size_hi // 4) + 1):
+            yield ["comb", n]
+
+    edit_hi = 4 if quick else 5
+    edit_comments = ([], ["k", "  lead"])
+
+    def gen_edits():
+        for n in range(1, edit_hi + 1):
+            for p in S.labelled_trees(n):
+                for com in edit_comments:
+                    for e in edits_for(list(p), com):
+                        yield [list(p), list(com), e]
+
+    elems = [(a, k) for a in range(len(CALL_POOL)) for k in CALL_KINDS]
+
+    def gen_calls():
+        for pair in itertools.product(elems, repeat=2):
+            yield [list(e) for e in pair]
+        if not quick:
+            for tri in itertools.product(elems, repeat=3):
+                yield [list(e) for e in tri]
+
+    out = _base_spaces(quick, lt_hi, depth, gen_shapes, gen_values, gen_types, gen_comments, gen_history, gen_big)
+    out += [
+        Space.of("sizes", gen_sizes, check_size, bounds={"chain_nodes": [1, size_hi], "comb_nodes": [2, size_hi // 4], "every_size": True,
+                                                          "source_kinds": ["text", "bytes", "path-lib"]}, case_timeout=600.0),
+        Space.of("edits", gen_edits, check_edit,
+                 bounds={"LT_max_nodes": edit_hi, "comments": [list(c) for c in edit_comments],
+                         "edits": "per node: coordinate via handle, radius via column array, type via handle; column replaced; copy then edit; "
+                                  "every admissible re-parenting x (handle, column, copy-then-handle); comments append/assign/setitem/clear",
+                         "protocol": "write+read (warm), edit in place, write+read judged against the edited content"}),
+        Space.of("calls", gen_calls, check_calls,
+                 bounds={"pool": [[list(p), list(c)] for p, c in CALL_POOL], "source_kinds": list(CALL_KINDS),
+                         "sequences": "all ordered pairs" + ("" if quick else " and triples")}),
+    ]
+    for sp in out:
+        sp.auto_retain = True
+    return out
+
+
+def _base_spaces(quick, lt_hi, depth, gen_shapes, gen_values, gen_types, gen_comments, gen_history, gen_big):
     return [
         Space.of("shapes", gen_shapes, check_shape,
                  bounds={"LT_max_nodes": lt_hi, "id_offsets": list(OFFSETS), "LT7_id_offsets": None if quick else [0, 1], "source_kinds": list(KINDS),
@@ -494,7 +716,7 @@ def spaces(tier, seed):
                  bounds={"alphabet": V, "columns": list(COLS), "combination": "every triple of columns, the fourth 0.5" if quick else "full product 17^4"}),
         Space.of("types", gen_types, check_types, bounds={"types": TYPES, "nodes": 2}),
         Space.of("comments", gen_comments, check_comments,
-                 bounds={"alphabet": COMMENT_ALPHABET, "max_len": 2, "source": [True, False, "custom"], "comments_flag": [True, False],
+                 bounds={"alphabet": COMMENT_ALPHABET, "max_len": 2, "source": [True, False, "custom", ""], "comments_flag": [True, False],
                          "tree_source": ["", "orig.swc"], "trees": [list(p) for p in COMMENT_TREES], "source_kinds": list(COMMENT_KINDS)}),
         Space.of("history", gen_history, check_history,
                  bounds={"depth": depth, "write_options": [dict(o) for o in WRITE_OPTS], "source_kinds": list(HISTORY_KINDS),
